@@ -132,7 +132,11 @@ def loads(s: str, parser=None, grammar=None, decoder=None, **kwargs):
     if isinstance(s, bytes):
         # Someone passed us an old-style bytes sequence.  Although it isn't
         # a string, we can deal with it:
-        s = s.decode()
+        try:
+            s = s.decode()
+        except UnicodeDecodeError:
+            # Maybe there's data after the label, like a file would have.
+            s = decode_by_char(io.BytesIO(s))
 
     if parser is None:
         parser = OmniParser(
